@@ -39,6 +39,19 @@ CHECKS["C13"] = dict(level="model_checking", design="5/C13", technique="TLA+ con
    text="Class programs and class-churn programs are run with caches on, with every probe forced to miss and with caches on under a dense collection schedule; all three must reproduce the TLC prediction from Lang.tla, and TLC validates every recorded probe (hit or miss) and class-table event against Cache.tla.",
    note="Trusts the cache hooks (probe events at the four sites, registry ids fresh per op_class), Lang.tla for outputs, TLC. Bounded by the generated program shapes; collection schedule every 3rd allocation with full sweeps.")
 
+_gc_note = ("Trusts the allocator hooks (alloc / gc / intern events built inside allocate and the sweep functions; collection schedule switch), "
+            "Lang.tla and Sched.tla for the predicted outputs, TLC. Schedules: every allocation, every 2nd, every 7th (more in thorough), with and "
+            "without forced full sweeps. Memory safety is judged through its symptoms (output change, crash, refused allocator event).")
+CHECKS["C05"] = dict(level="model_checking", design="5/C05", note=_gc_note,
+   technique="TLC predictions (Lang.tla, Sched.tla) replayed on the VM under TLC-independent collection schedules; allocator event traces validated by TLC against the contract Gc.tla",
+   text="Programs whose behaviour TLC predicted - core, closure, class, exception and string families, and fiber/channel programs in which every value crossing a channel, every fiber body and every captured variable is a heap object reachable only through buffers, parked fibers or frame captures - are run under dense collection schedules; output, event stream and status must equal the schedule-free prediction, and the allocator events must be accepted by Gc.tla (no block freed twice or unallocated, nursery cycles free only nursery objects, intern table consistent).")
+CHECKS["C20"] = dict(level="model_checking", design="5/C20", note=_gc_note + " The ledger allocator of the harness records every block's true layout in a private header.",
+   technique="allocator event traces recorded from before the VM exists validated by TLC against Gc.tla (exact byte accounting after every cycle, threshold = 2 x live, frees, intern table); ledger global allocator; steady-state live size",
+   text="For generated programs under the schedules, TLC checks on the recorded allocator events that after EVERY collection the reported byte count equals the sum of the sizes of the blocks still held and the next threshold is twice that, that nothing is freed twice, and that the intern table holds exactly one live string per content; the harness allocator checks every release against the size and alignment of its allocation; loop programs must hold the same number of bytes after k, 2k and 4k iterations.")
+CHECKS["C09"] = dict(level="model_checking", design="5/C09", note=_gc_note,
+   technique="Lang.tla predictions (content equality) replayed under collection schedules; intern events validated by TLC against Gc.tla S4",
+   text="String programs (equal contents built by literal, concatenation, interpolation, str(); equal strings created, dropped and collected in between; strings as field and method names, list members) run under the schedules must print what Lang.tla predicts, and TLC validates the intern hit/miss/evict events: a hit returns the table's string for that content, a miss happens only when no entry exists, no entry outlives its string.")
+
 NOT_APPLICABLE = {}
 
 def main():
